@@ -20,6 +20,9 @@
 
 #include "add_space_table.h"
 #include "log_rules.h"
+#ifdef UNCRUSTIFY_VERIF
+#include "verif_hooks.h"
+#endif
 #include "options.h"
 #include "options_for_QT.h"
 #include "punctuators.h"
@@ -3510,6 +3513,15 @@ const char *decode_IARF(iarf_e av)
 
 static iarf_e do_space_ensured(Chunk *first, Chunk *second, int &min_sp)
 {
+#ifdef UNCRUSTIFY_VERIF
+   if (verif::dumping())
+   {
+      verif::note_rule("", 0);
+      iarf_e raw = do_space(first, second, min_sp);
+      verif::note_raw_av((int)raw);
+      return(ensure_force_space(first, second, raw));
+   }
+#endif
    return(ensure_force_space(first, second, do_space(first, second, min_sp)));
 }
 
@@ -3812,6 +3824,9 @@ void space_text()
             }
          }
          next->SetColumn(column);
+#ifdef UNCRUSTIFY_VERIF
+         verif::sp_record(pc, next, (int)av, min_sp, prev_column, column);
+#endif
          LOG_FMT(LSPACE, "%s(%d): orig line is %zu, orig col is %zu, pc-Text() '%s', type is %s\n",
                  __func__, __LINE__, pc->GetOrigLine(), pc->GetOrigCol(), pc->Text(), get_token_name(pc->GetType()));
          LOG_FMT(LSPACE, "%s(%d): ",
@@ -3833,6 +3848,9 @@ void space_text()
          pc->SetFlagBits(PCF_IN_QT_MACRO);
       }
    }
+#ifdef UNCRUSTIFY_VERIF
+   verif::sp_close();
+#endif
 } // space_text
 
 
